@@ -259,7 +259,18 @@ def run_case(ctx, case):
     sig_safe = np.where(sig > 0, sig, 1.0)
     pv = np.array(fit.parameter_values, dtype=float)
     free = g["free"]
-    ctx.check("parameter_values", bool(np.all(np.abs(pv - g["p"])[free] <= ptol * sig[free])), lambda: {"got": pv, "expected": g["p"], "sigma": sig, "deviation_in_sigma": (np.abs(pv - g["p"]) / sig_safe)})
+    # open finding (shared with C06): the scipy adapter accepts a result scipy itself flags as failed ("Desired error not necessarily
+    # achieved due to precision loss") although the cost there is above the optimum.  Signature: success flag False AND the reported cost
+    # exceeds the closed-form optimum by more than the tolerance.
+    skey = None
+    if case["minimizer"] == "scipy":
+        try:
+            res = fit._fitter.minimizer._opt_result
+            if res is not None and not bool(res.success) and float(fit.cost_function_value) > g["chi2"] + g["logdet"] + chi2tol:
+                skey = "C06/scipy-backend-accepts-unconverged-result"
+        except Exception:
+            skey = None
+    ctx.check("parameter_values", bool(np.all(np.abs(pv - g["p"])[free] <= ptol * sig[free])), lambda: {"got": pv, "expected": g["p"], "sigma": sig, "deviation_in_sigma": (np.abs(pv - g["p"]) / sig_safe)}, key=skey)
     if g["fix"]:
         ctx.eq("fixed_untouched", pv[g["fix"]], g["p"][g["fix"]])
     w = float(np.max((np.abs(pv - g["p"]) / sig_safe)[free]))
@@ -276,20 +287,20 @@ def run_case(ctx, case):
     # the normal matrix (observed 2.4e-2 at cond 6e6); numdifftools (scipy backend) does not (observed 2e-11)
     ctol = 2e-3 if case["minimizer"] == "scipy" else max(5e-3, 5e-8 * g["condH"])
     ctx.note("cov_tolerance_le_1e-2" if ctol <= 1e-2 else "cov_tolerance_gt_1e-2")
-    ctx.check("parameter_cov_mat", bool(np.all(dev <= ctol)), lambda: {"got": cm, "expected": g["cov"], "max_normalised_deviation": float(dev.max()), "tolerance": ctol, "cond": g["condH"]})
+    ctx.check("parameter_cov_mat", bool(np.all(dev <= ctol)), lambda: {"got": cm, "expected": g["cov"], "max_normalised_deviation": float(dev.max()), "tolerance": ctol, "cond": g["condH"]}, key=skey)
     pe = np.array(fit.parameter_errors, dtype=float)
-    ctx.check("parameter_errors", bool(np.all(np.abs(pe - sig) <= ctol * sig_safe)), lambda: {"got": pe, "expected": sig, "tolerance": ctol})
-    ctx.close("parameter_errors.sqrt-diag", pe, np.sqrt(np.diag(cm)), tol=Tol.custom("DEF", max(1e-3, ctol), 1e-14))
+    ctx.check("parameter_errors", bool(np.all(np.abs(pe - sig) <= ctol * sig_safe)), lambda: {"got": pe, "expected": sig, "tolerance": ctol}, key=skey)
+    ctx.close("parameter_errors.sqrt-diag", pe, np.sqrt(np.diag(cm)), tol=Tol.custom("DEF", max(1e-3, ctol), 1e-14), key=skey)
     cor = fit.parameter_cor_mat
     if cor is not None and len(free) >= 1:
         cor = np.array(cor, dtype=float)
         exp_cor = g["cov"] / norm
         sub = np.ix_(free, free)
-        ctx.check("parameter_cor_mat", bool(np.all(np.abs(cor[sub] - exp_cor[sub]) <= ctol)), lambda: {"got": cor, "expected": exp_cor, "tolerance": ctol})
+        ctx.check("parameter_cor_mat", bool(np.all(np.abs(cor[sub] - exp_cor[sub]) <= ctol)), lambda: {"got": cor, "expected": exp_cor, "tolerance": ctol}, key=skey)
     gof = fit.goodness_of_fit
-    ctx.check("goodness_of_fit", gof is not None and abs(gof - g["chi2"]) <= chi2tol, lambda: {"got": gof, "expected": g["chi2"]})
+    ctx.check("goodness_of_fit", gof is not None and abs(gof - g["chi2"]) <= chi2tol, lambda: {"got": gof, "expected": g["chi2"]}, key=skey)
     cv = float(fit.cost_function_value)
-    ctx.check("cost_function_value", abs(cv - (g["chi2"] + g["logdet"])) <= chi2tol, lambda: {"got": cv, "expected": g["chi2"] + g["logdet"], "chi2": g["chi2"], "logdet": g["logdet"]})
+    ctx.check("cost_function_value", abs(cv - (g["chi2"] + g["logdet"])) <= chi2tol, lambda: {"got": cv, "expected": g["chi2"] + g["logdet"], "chi2": g["chi2"], "logdet": g["logdet"]}, key=skey)
     # members of a multi-fit report the sub-blocks (C11 checks this in depth; here only values)
     if case.get("asym"):
         try:
@@ -301,10 +312,10 @@ def run_case(ctx, case):
             ae = np.array(ae, dtype=float)
             exp = np.stack([-sig, sig], axis=1)
             ok = bool(np.all(np.abs(ae - exp)[free] <= max(ptol, ctol) * sig_safe[free][:, None]))
-            ctx.check("asymmetric_parameter_errors", ok, lambda: {"got": ae, "expected": exp, "sigma": sig})
+            ctx.check("asymmetric_parameter_errors", ok, lambda: {"got": ae, "expected": exp, "sigma": sig}, key=skey)
             # the query must not have moved the fit (C08 in depth)
             pv2 = np.array(fit.parameter_values, dtype=float)
-            ctx.check("parameter_values.after-asymmetric", bool(np.all(np.abs(pv2 - g["p"])[free] <= ptol * sig[free])), lambda: {"got": pv2, "expected": g["p"], "sigma": sig})
+            ctx.check("parameter_values.after-asymmetric", bool(np.all(np.abs(pv2 - g["p"])[free] <= ptol * sig[free])), lambda: {"got": pv2, "expected": g["p"], "sigma": sig}, key=skey)
     return nontrivial
 
 
